@@ -100,7 +100,7 @@ def check_C17(tier, t0):
 
     seed = core.verif_seed()
     n = scale(40000 if tier == "quick" else 3000000)
-    n_real = 240 if tier == "quick" else 16000
+    n_real = 1200 if tier == "quick" else 30000
     bud = budget(150 if tier == "quick" else 1500)
     params = {"seed": seed, "real_every": max(1, n // n_real)}
     n_eof = len(ec.eof_sweep_cases())
